@@ -295,4 +295,66 @@ theorem setDefault_only_defaults (r : Reg) (fn mask : Nat) :
     (setDefault r fn mask).before = r.before ∧ (setDefault r fn mask).after = r.after ∧
     (setDefault r fn mask).filters = r.filters := ⟨rfl, rfl, rfl, rfl, rfl, rfl, rfl⟩
 
+/-! ### key order of the tables (registration order) -/
+
+/-- the keys of a table, in table order -/
+def keys (d : List (κ × ν)) : List κ := d.map (·.1)
+
+/-- python `d[k] = v` keeps the position of an existing key and appends a new one -/
+theorem dset_keys (d : List (κ × ν)) (k : κ) (v : ν) :
+    keys (dset d k v) = if k ∈ keys d then keys d else keys d ++ [k] := by
+  unfold dset keys
+  by_cases h : d.any (fun e => e.1 == k) = true
+  · have hk : k ∈ d.map (·.1) := by
+      simp only [List.any_eq_true, beq_iff_eq] at h
+      obtain ⟨e, he, rfl⟩ := h
+      exact List.mem_map.2 ⟨e, he, rfl⟩
+    rw [if_pos h, if_pos hk, List.map_map]
+    apply List.map_congr_left
+    intro e _
+    simp only [Function.comp]
+    split
+    · rename_i he; exact (beq_iff_eq.1 he).symm
+    · rfl
+  · have hk : k ∉ d.map (·.1) := by
+      intro hm
+      obtain ⟨e, he, rfl⟩ := List.mem_map.1 hm
+      exact h (List.any_eq_true.2 ⟨e, he, by simp⟩)
+    rw [if_neg h, if_neg hk]
+    simp
+
+theorem fanOut_keys (d : List (κ × List (Nat × ν))) (k : κ) (mask : Nat) (x : ν) :
+    keys (fanOut d k mask x) = if k ∈ keys d then keys d else keys d ++ [k] := by
+  unfold fanOut
+  exact dset_keys _ _ _
+
+/-- a table never holds a key twice -/
+theorem fanOut_nodup (d : List (κ × List (Nat × ν))) (k : κ) (mask : Nat) (x : ν) (h : (keys d).Nodup) :
+    (keys (fanOut d k mask x)).Nodup := by
+  rw [fanOut_keys]
+  split
+  · exact h
+  · rename_i hk
+    exact List.nodup_append.2 ⟨h, by simp, by intro a ha b hb; simp at hb; subst hb; intro e; exact hk (e ▸ ha)⟩
+
+/-- the entry found at a key's position is the one `lookup2` reads -/
+theorem lookup2_at (pre post : List (κ × List (Nat × ν))) (k : κ) (inner : List (Nat × ν)) (b : Nat)
+    (h : k ∉ keys pre) : lookup2 (pre ++ (k, inner) :: post) k b = dget inner b := by
+  unfold lookup2 dget
+  have : (pre ++ (k, inner) :: post).lookup k = some inner := by
+    induction pre with
+    | nil => simp [List.lookup]
+    | cons e t ih =>
+      have hne : ¬ e.1 = k := by intro he; exact h (by simp [keys, he])
+      have ht : k ∉ keys t := by intro hm; exact h (by simp [keys] at hm ⊢; exact Or.inr hm)
+      obtain ⟨a, v⟩ := e
+      simp only [List.cons_append, List.lookup]
+      have : (k == a) = false := by
+        simp only [beq_eq_false_iff_ne, ne_eq]; intro e; exact hne e.symm
+      rw [this]
+      exact ih ht
+  rw [this]
+  rfl
+
+
 end Poor.Props.C19
